@@ -25,7 +25,7 @@ MANIFEST = dict(
     technique="Coq proof (invariants by induction over operation histories, on top of C14) + vm_compute correspondence with the Rust implementation",
 )
 
-PINNED = ["C15_prune_sound", "C15_prune_sound_chain", "C15_event_meaning", "C15_asked_means_forget_request", "C15_step_keeps", "C15_survives", "C15_restart_changes_nothing", "C15_hwm_monotone",
+PINNED = ["C15_prune_sound", "C15_prune_sound_chain", "C15_event_meaning", "C15_asked_means_forget_request", "C15_step_keeps", "C15_survives", "C15_restart_changes_nothing", "C15_preimages_durable", "C15_old_fulfill_not_persisted_refuted", "C15_fulfill_persisted_keeps", "C15_hwm_monotone",
           "C15_no_reuse", "C15_nonvacuous", "C15_nonvacuous_survives"]
 IMPORTS = ["Model.PruneCheck"]
 
@@ -91,7 +91,7 @@ def run(res):
         "evaluations": len(cases),
         "distinct_nontrivial": len(nontrivial),
         "rule": "real Node + MemoryKVVStore; blocks connected / disconnected with follower-style proofs (compact filter + SpvProof::build over the forward / reverse watches the signer reports), the model is given what the proof delivered, the property monitor judges burial on the full chain; channels (peer in {0,1}) x (dbid in {1..4}; malformed also 0 and 2^64-1), with / "
-                "without a permanent id, with / without an HTLC on the commitment, peer 1 in lockstep (holder and counterparty commitment with the same number both held), dbid 3 funded by the counterparty with an HTLC offered to us that enters through validate_holder_commitment_tx_phase2 / sign_counterparty_commitment_tx_phase2 and THEIR commitment closing; harness op Fulfill = Channel::htlcs_fulfilled + commitment request + a request that writes the node entry, the claimability handed to the model and used by the monitor comes from the harness's own record of preimages handed over; scripted: each pruning reason at depth "
+                "without a permanent id, with / without an HTLC on the commitment, peer 1 in lockstep (holder and counterparty commitment with the same number both held), dbid 3 funded by the counterparty with an HTLC offered to us that enters through validate_holder_commitment_tx_phase2 / sign_counterparty_commitment_tx_phase2 and THEIR commitment closing; harness op Fulfill = Channel::htlcs_fulfilled + commitment request, with or (two times in three) without a later request that writes the node entry, the claimability handed to the model and used by the monitor comes from the harness's own record of preimages handed over; scripted: each pruning reason at depth "
                 "MIN_DEPTH-2, -1, MIN_DEPTH (constants read from the source), forget before / after burial, reorg across "
                 "the threshold, the close reorged out and back, restart between forget and the next block, stub age at "
                 "the prune time and one above, full map, reorg below the setup height, two channels in one block, setup "
